@@ -70,7 +70,7 @@ def main():
             for rel, text in case['files'].items():
                 p = os.path.join(base, rel)
                 os.makedirs(os.path.dirname(p), exist_ok=True)
-                with open(p, 'w') as f:
+                with open(p, 'w', encoding='utf-8', newline='') as f:
                     f.write(text)
             for link, target in (case.get('symlinks') or {}).items():
                 lp = os.path.join(base, link)
